@@ -237,9 +237,9 @@ def signed_unit_rule(repo: Repo, rep: Report, rid: str) -> None:
         bad = fold["range_bad"]
         rep.info["bitbuffer_write_fold_cases"] = fold["cases"]
         ov = fold.get("overflow_bad", [])
-        rep.check(not ov, rid, f"{fi.key}:unit-overflow", "a unit whose accumulated pattern exceeds its width reaches the storage type out of range (so it is refused)",
-                  "a value too wide for the most significant bit-field pushes the pattern past the unit, and BitBuffer.flush wraps it back into the storage "
-                  f"type's range instead of letting the type refuse it: (endian, size, signed, style, field values, value handed on) = {ov[0] if ov else ''}", fi.loc())
+        rep.check(not ov, rid, f"{fi.key}:unit-overflow", "a field value that does not fit its field (too wide, or negative) is refused, in every position of the unit",
+                  "a bit-field value that does not fit its field is written all the same - it spills into the neighbouring field, or is wrapped back into the "
+                  f"storage type's range - and reads back as other numbers: (endian, size, signed, style, field values, unit handed on) = {ov[0] if ov else ''}", fi.loc())
         rep.check(not bad, rid, f"{fi.key}:unit-write",
                   f"write/flush folded over {fold['cases']} (bit order, unit size, signedness style, width sequence, pattern) cases: the value handed to the "
                   "storage type's _write always lies in that type's range",
